@@ -281,3 +281,14 @@ mod verif_proxy {
         builder_case::<3, 3>();
     }
 }
+
+/// Direct construction for harnesses in other modules (the builder moves whole Url values around,
+/// which is expensive for the symbolic executor; it is decided on its own in c11_*_builder_*).
+pub(crate) fn verif_proxy_settings(http: Option<Url>, https: Option<Url>, no_proxy: Vec<String>) -> ProxySettings {
+    ProxySettings {
+        http_proxy: http,
+        https_proxy: https,
+        disable_proxies: false,
+        no_proxy_hosts: no_proxy,
+    }
+}
